@@ -61,6 +61,9 @@ Qed.
 Lemma count_cons A (f : A -> bool) e l : count f (e :: l) = b2n (f e) + count f l.
 Proof. unfold count. simpl. destruct (f e); reflexivity. Qed.
 
+Lemma tcount_cons (f : tevent -> bool) (e : tevent) l : @count tevent f (e :: l) = b2n (f e) + @count tevent f l.
+Proof. apply count_cons. Qed.
+
 Lemma count_app A (f : A -> bool) l1 l2 : count f (l1 ++ l2) = count f l1 + count f l2.
 Proof. unfold count. rewrite filter_app, app_length. reflexivity. Qed.
 
@@ -375,6 +378,7 @@ Section Combine.
               | (apply next_th_ok; assumption) ].
 
   Ltac okk := unfold thr_ok; cbn; repeat split; auto.
+  Ltac vcase s t := try solve [destruct (cbs_vals s t); simpl in *; first [lia | congruence]].
 
   Lemma inv_step s t : Inv s -> Inv (cb_step true n s t).
   Proof.
@@ -403,32 +407,433 @@ Section Combine.
     - (* CbAtDataDec *)
       destruct (Nat.eqb_spec (pred (cbs_ndata s)) 0) as [Hz|Hz].
       + frame I Ht; fin E.
-        all: try okk. Show.
-      + rewrite cb_next_eq by (cbn; exact Hst). frame I Ht; fin E. all: try okk.
+        all: try okk. all: vcase s t.
+      + rewrite cb_next_eq by (cbn; exact Hst). frame I Ht; fin E. all: try okk. all: vcase s t.
     - (* CbAtDataLoad *)
       destruct (Nat.eqb_spec (cbs_ndata s) 0) as [Hz|Hz].
       + frame I Ht; fin E.
-        all: try okk.
+        all: try okk. all: vcase s t.
       + rewrite cb_next_eq by (cbn; exact Hst). frame I Ht; fin E.
     - (* CbAtRcuLoad *)
-      frame I Ht; fin E. all: try okk.
+      destruct Hpc as (Hin & -> & ->).
+      frame I Ht; fin E. all: try okk. all: vcase s t.
     - (* CbAtRcuCas *)
       destruct Hpc as (Hin & -> & ->).
       destruct (Nat.eqb_spec ver (cbs_ver s)) as [Hz|Hz].
       + frame I Ht; fin E.
-        all: try okk.
-      + frame I Ht; fin E. all: try okk.
+        all: try okk. all: vcase s t.
+      + frame I Ht; fin E. all: try okk. all: vcase s t.
     - (* CbAtEmitLoad *)
       destruct (inv_tuple I Hpc) as (l & -> & _).
-      frame I Ht; fin E. all: try okk.
+      frame I Ht; fin E. all: try okk. all: vcase s t.
     - (* CbInData *)
       rewrite cb_next_eq by (cbn; exact Hst). frame I Ht; fin E.
     - (* CbAtEndDec *)
       destruct (Nat.eqb_spec (pred (cbs_nend s)) 0) as [Hz|Hz].
-      + frame I Ht; fin E. all: try okk.
-      + frame I Ht; fin E. all: try okk.
+      + frame I Ht; fin E. all: try okk. all: vcase s t.
+      + frame I Ht; fin E. all: try okk. all: vcase s t.
+        rewrite Hfin. destruct (fins t); simpl; solve [lia | congruence].
     - (* CbInTerm *)
-      frame I Ht; fin E. all: try okk.
+      frame I Ht; fin E. all: try okk. all: vcase s t.
+      rewrite Hfin. destruct (fins t); simpl; solve [lia | congruence].
     - exact I.
-  Admitted.
+  Qed.
+  (** ** The trace invariant *)
+
+  Definition tuple_good (e : tevent) : Prop :=
+    match snd e with
+    | TBegin (DD x) => exists l, x = VT l /\ length l = n /\ tuple_ok qs 0 l = true
+    | _ => True
+    end.
+
+  Definition O0 : nat -> bool := fun _ => false.
+
+  Record TInv (s : cb_state) : Prop := {
+    ti_panic : existsb is_panic (cbs_tr s) = false;
+    ti_greet : count is_begin_greet (cbs_tr s) = if cbs_nstart s =? 0 then 1 else 0;
+    ti_bgo : before_greet_ok (rev (cbs_tr s)) = true;
+    ti_term : count is_begin_term (cbs_tr s) = if cbs_nend s =? 0 then 1 else 0;
+    ti_dt : count is_begin_dt (cbs_tr s) = if cbs_nend s =? 0 then 1 else 0;
+    ti_scan : scan_term O0 false (rev (cbs_tr s)) = [];
+    ti_open : forall x, open_after O0 (rev (cbs_tr s)) x = indatab (cbs_th s x);
+    ti_seen : seen_after false (rev (cbs_tr s)) = (cbs_nend s =? 0);
+    ti_tuples : Forall tuple_good (cbs_tr s) }.
+
+  Hypothesis Hn : 1 <= n.
+
+  Lemma tinv_init : TInv (cb_init n qs fins).
+  Proof.
+    split; cbn -[Nat.ltb]; try reflexivity.
+    - destruct (Nat.eqb_spec n 0); [lia|reflexivity].
+    - destruct (Nat.eqb_spec n 0); [lia|reflexivity].
+    - destruct (Nat.eqb_spec n 0); [lia|reflexivity].
+    - intros x. unfold indatab. cbn -[Nat.ltb]. destruct (x <? n); reflexivity.
+    - destruct (Nat.eqb_spec n 0); [lia|reflexivity].
+    - constructor.
+  Qed.
+
+  Lemma tinv_silent s s' :
+    TInv s -> cbs_tr s' = cbs_tr s ->
+    (cbs_nstart s' = 0 <-> cbs_nstart s = 0) -> (cbs_nend s' = 0 <-> cbs_nend s = 0) ->
+    (forall x, indatab (cbs_th s' x) = indatab (cbs_th s x)) -> TInv s'.
+  Proof.
+    intros T Htr H1 H2 H3. apply eqb0_iff in H1, H2.
+    destruct T. split; rewrite ?Htr, ?H1, ?H2; auto. intros x; rewrite H3; auto.
+  Qed.
+
+  Lemma tinv_end s s' t :
+    TInv s -> cbs_tr s' = (t, TEnd) :: cbs_tr s ->
+    (cbs_nstart s' = 0 <-> cbs_nstart s = 0) -> (cbs_nend s' = 0 <-> cbs_nend s = 0) ->
+    (forall x, x <> t -> indatab (cbs_th s' x) = indatab (cbs_th s x)) ->
+    indatab (cbs_th s' t) = false -> TInv s'.
+  Proof.
+    intros T Htr H1 H2 H3 H4. apply eqb0_iff in H1, H2.
+    destruct T. split; rewrite ?Htr, ?H1, ?H2, ?tcount_cons; simpl rev; auto.
+    - apply bgo_snoc_nb; auto.
+    - rewrite scan_term_app, ti_scan0. reflexivity.
+    - intros x. rewrite open_after_app. simpl. destruct (Nat.eq_dec x t) as [->|Hx].
+      + rewrite upd_same, H4. reflexivity.
+      + rewrite upd_other, H3 by exact Hx. apply ti_open0.
+    - rewrite seen_after_app. simpl. assumption.
+    - constructor; [exact Logic.I|assumption].
+  Qed.
+
+  Lemma tinv_greet s s' t :
+    TInv s -> cbs_tr s' = (t, TBegin DH) :: cbs_tr s ->
+    cbs_nstart s <> 0 -> cbs_nstart s' = 0 -> (cbs_nend s' = 0 <-> cbs_nend s = 0) ->
+    (forall x, indatab (cbs_th s' x) = indatab (cbs_th s x)) -> TInv s'.
+  Proof.
+    intros T Htr H0 H1 H2 H3. apply eqb0_iff in H2. apply Nat.eqb_neq in H0.
+    destruct T. rewrite H0 in *.
+    split; rewrite ?Htr, ?H1, ?H2, ?tcount_cons; simpl rev; auto.
+    - rewrite ti_greet0. reflexivity.
+    - apply bgo_snoc_greet; auto.
+    - rewrite scan_term_app, ti_scan0. reflexivity.
+    - intros x. rewrite open_after_app. simpl. rewrite H3. apply ti_open0.
+    - rewrite seen_after_app. simpl. assumption.
+    - constructor; [exact Logic.I|assumption].
+  Qed.
+
+  Lemma tinv_data s s' t l :
+    TInv s -> cbs_tr s' = (t, TBegin (DD (VT l))) :: cbs_tr s ->
+    cbs_nstart s = 0 -> cbs_nstart s' = 0 -> cbs_nend s <> 0 -> cbs_nend s' = cbs_nend s ->
+    length l = n -> tuple_ok qs 0 l = true ->
+    (forall x, x <> t -> indatab (cbs_th s' x) = indatab (cbs_th s x)) ->
+    indatab (cbs_th s' t) = true -> TInv s'.
+  Proof.
+    intros T Htr H0 H1 H2 H2' Hl Hok H3 H4. apply Nat.eqb_neq in H2.
+    destruct T. rewrite H0, H2 in *.
+    split; rewrite ?Htr, ?H1, ?H2', ?H2, ?tcount_cons; simpl rev; auto.
+    - apply bgo_snoc_after; auto. rewrite count_rev, ti_greet0. simpl. lia.
+    - rewrite scan_term_app, ti_scan0, ti_seen0. reflexivity.
+    - intros x. rewrite open_after_app. simpl. destruct (Nat.eq_dec x t) as [->|Hx].
+      + rewrite upd_same, H4. reflexivity.
+      + rewrite upd_other, H3 by exact Hx. apply ti_open0.
+    - rewrite seen_after_app. simpl. assumption.
+    - constructor; [|assumption]. exists l. auto.
+  Qed.
+
+  Lemma tinv_dt s s' t :
+    TInv s -> cbs_tr s' = (t, TBegin DT) :: cbs_tr s ->
+    cbs_nstart s = 0 -> cbs_nstart s' = 0 -> cbs_nend s <> 0 -> cbs_nend s' = 0 ->
+    (forall x, indatab (cbs_th s x) = false) ->
+    (forall x, indatab (cbs_th s' x) = false) -> TInv s'.
+  Proof.
+    intros T Htr H0 H1 H2 H2' H3 H4. apply Nat.eqb_neq in H2.
+    destruct T. rewrite H0, H2 in *.
+    split; rewrite ?Htr, ?H1, ?H2', ?tcount_cons; simpl rev; auto.
+    - apply bgo_snoc_after; auto. rewrite count_rev, ti_greet0. simpl. lia.
+    - rewrite ti_term0. reflexivity.
+    - rewrite ti_dt0. reflexivity.
+    - rewrite scan_term_app, ti_scan0. cbn [app scan_term].
+      rewrite existsb_all_false; [reflexivity|]. intros x. rewrite ti_open0. apply H3.
+    - intros x. rewrite open_after_app. simpl. rewrite ti_open0, H3, H4. reflexivity.
+    - rewrite seen_after_app. reflexivity.
+    - constructor; [exact Logic.I|assumption].
+  Qed.
+
+  Lemma all_ended s : Inv s -> cbs_nend s = 0 ->
+    forall x, atstartb (cbs_th s x) = false /\ indatab (cbs_th s x) = false /\
+              (cb_pcv (cbs_th s x) = CbInTerm \/ cb_pcv (cbs_th s x) = CbFinished).
+  Proof.
+    intros I H x. destruct (le_lt_dec n x) as [Hge|Hx].
+    - pose proof (inv_out I Hge) as F. unfold atstartb, indatab. rewrite F. auto.
+    - rewrite (inv_nend I) in H. pose proof (cnt_zero _ _ H x Hx) as Z. cbv beta in Z.
+      unfold notendedb in Z. unfold atstartb, indatab.
+      destruct (cb_pcv (cbs_th s x)); try discriminate; auto.
+  Qed.
+
+  Ltac ind_same E t :=
+    let x := fresh "x" in let Hx := fresh "Hx" in
+    intros x; cbn; destruct (Nat.eq_dec x t) as [->|Hx];
+    [ rewrite upd_same; rewrite ?next_th_indata; unfold indatab; cbn; rewrite ?E; reflexivity
+    | rewrite upd_other by exact Hx; reflexivity ].
+  Ltac ind_other :=
+    let x := fresh "x" in let Hx := fresh "Hx" in
+    intros x Hx; cbn; rewrite upd_other by exact Hx; reflexivity.
+  Ltac ind_self :=
+    cbn; rewrite upd_same; rewrite ?next_th_indata; unfold indatab; cbn; reflexivity.
+
+  Lemma tinv_step s t : Inv s -> TInv s -> TInv (cb_step true n s t).
+  Proof.
+    intros I T. pose proof (inv_step t I) as I'.
+    destruct (le_lt_dec n t) as [Hge|Ht].
+    { unfold cb_step. rewrite (inv_out I Hge). exact T. }
+    destruct (inv_thr I t) as (Hfin & Hq & Hv & Hpc).
+    pose proof (cnt_ge (fun x => atstartb (cbs_th s x)) n t Ht) as G1.
+    pose proof (cnt_ge (fun x => notendedb (cbs_th s x)) n t Ht) as G3.
+    rewrite <- (inv_nstart I) in G1. rewrite <- (inv_nend I) in G3.
+    cbv beta in G1, G3.
+    pose proof (inv_stopped I t) as Hst.
+    revert I'. unfold cb_step, cb_after_count.
+    unfold atstartb, notendedb in G1, G3.
+    destruct (cb_pcv (cbs_th s t)) eqn:E; simpl b2n in G1, G3; intros I'.
+    - (* CbAtStartDec *)
+      destruct (Nat.eqb_spec (pred (cbs_nstart s)) 0) as [Hz|Hz].
+      + eapply tinv_greet with (t := t);
+          [exact T | cbn; reflexivity | lia | cbn; exact Hz | cbn; tauto | ind_same E t].
+      + rewrite cb_next_eq by (cbn; exact Hst).
+        eapply tinv_silent; [exact T | cbn; reflexivity | cbn; lia | cbn; tauto | ind_same E t].
+    - (* CbInGreet *)
+      rewrite cb_next_eq by (cbn; exact Hst).
+      eapply tinv_end with (t := t);
+        [exact T | cbn; reflexivity | cbn; tauto | cbn; tauto | ind_other | ind_self].
+    - (* CbAtValsLoad *)
+      eapply tinv_silent; [exact T | cbn; reflexivity | cbn; tauto | cbn; tauto | ind_same E t].
+    - (* CbAtDataDec *)
+      destruct (Nat.eqb_spec (pred (cbs_ndata s)) 0) as [Hz|Hz].
+      + eapply tinv_silent; [exact T | cbn; reflexivity | cbn; tauto | cbn; tauto | ind_same E t].
+      + rewrite cb_next_eq by (cbn; exact Hst).
+        eapply tinv_silent; [exact T | cbn; reflexivity | cbn; tauto | cbn; tauto | ind_same E t].
+    - (* CbAtDataLoad *)
+      destruct (Nat.eqb_spec (cbs_ndata s) 0) as [Hz|Hz].
+      + eapply tinv_silent; [exact T | cbn; reflexivity | cbn; tauto | cbn; tauto | ind_same E t].
+      + rewrite cb_next_eq by (cbn; exact Hst).
+        eapply tinv_silent; [exact T | cbn; reflexivity | cbn; tauto | cbn; tauto | ind_same E t].
+    - (* CbAtRcuLoad *)
+      eapply tinv_silent; [exact T | cbn; reflexivity | cbn; tauto | cbn; tauto | ind_same E t].
+    - (* CbAtRcuCas *)
+      destruct Hpc as (Hin & -> & ->).
+      destruct (Nat.eqb_spec ver (cbs_ver s)) as [Hz|Hz].
+      + eapply tinv_silent; [exact T | cbn; reflexivity | cbn; tauto | cbn; tauto | ].
+        destruct (isnone (cbs_vals s t)); ind_same E t.
+      + eapply tinv_silent; [exact T | cbn; reflexivity | cbn; tauto | cbn; tauto | ind_same E t].
+    - (* CbAtEmitLoad *)
+      destruct (inv_tuple I Hpc) as (l & El & Hlen & Hok). rewrite El.
+      eapply tinv_data with (t := t) (l := l);
+        [exact T | cbn; reflexivity | apply (inv_nstart0 I Hpc) | cbn; apply (inv_nstart0 I Hpc)
+        | lia | cbn; reflexivity | exact Hlen | exact Hok | ind_other | ind_self].
+    - (* CbInData *)
+      rewrite cb_next_eq by (cbn; exact Hst).
+      eapply tinv_end with (t := t);
+        [exact T | cbn; reflexivity | cbn; tauto | cbn; tauto | ind_other | ind_self].
+    - (* CbAtEndDec *)
+      destruct (Nat.eqb_spec (pred (cbs_nend s)) 0) as [Hz|Hz].
+      + pose proof (all_ended I' Hz) as A. cbn in A.
+        assert (B : forall x, atstartb (cbs_th s x) = false /\ indatab (cbs_th s x) = false).
+        { intros x. destruct (Nat.eq_dec x t) as [->|Hx].
+          - unfold atstartb, indatab. rewrite E. auto.
+          - specialize (A x). rewrite upd_other in A by exact Hx. tauto. }
+        assert (S0 : cbs_nstart s = 0).
+        { rewrite (inv_nstart I). apply cnt_zero_intro. intros x _. apply B. }
+        eapply tinv_dt with (t := t);
+          [exact T | cbn; reflexivity | exact S0 | cbn; exact S0 | lia | cbn; exact Hz
+          | intros x; apply B | intros x; apply A].
+      + eapply tinv_silent; [exact T | cbn; reflexivity | cbn; tauto | cbn; lia | ind_same E t].
+    - (* CbInTerm *)
+      eapply tinv_end with (t := t);
+        [exact T | cbn; reflexivity | cbn; tauto | cbn; tauto | ind_other | ind_self].
+    - exact T.
+  Qed.
+
+  (** ** Every reachable state satisfies both invariants *)
+
+  Lemma reach_inv s : cb_reach s -> Inv s /\ TInv s.
+  Proof.
+    induction 1 as [|s t R [I T]].
+    - split; [apply inv_init|apply tinv_init].
+    - split; [apply inv_step|apply tinv_step]; assumption.
+  Qed.
+
+  (** 1. no panic *)
+  Theorem combine_threads_no_panic s :
+    cb_reach s ->
+    cbs_panicked s = false /\ existsb is_panic (cbs_tr s) = false /\
+    forall t, ~ In (t, TPanic) (cbs_tr s).
+  Proof.
+    intros R. destruct (reach_inv R) as [I T]. split; [apply I|]. split; [apply T|].
+    intros t Hin. pose proof (ti_panic T) as P.
+    assert (Q : existsb is_panic (cbs_tr s) = true)
+      by (apply existsb_exists; exists (t, TPanic); split; [exact Hin|reflexivity]).
+    congruence.
+  Qed.
+
+  (** the counters count what they are meant to count, and the slots only hold sent values *)
+  Theorem combine_threads_counts s :
+    cb_reach s ->
+    cbs_nstart s = cnt (fun x => atstartb (cbs_th s x)) n /\
+    cbs_ndata s = cnt (fun x => undecb (cbs_th s x) (cbs_vals s x)) n /\
+    cbs_nend s = cnt (fun x => notendedb (cbs_th s x)) n /\
+    (forall t, cbs_stopped s t = false) /\
+    (forall t, cb_pcv (cbs_th s t) = CbAtEmitLoad -> forall j, j < n -> cbs_vals s j <> None).
+  Proof.
+    intros R. destruct (reach_inv R) as [I T].
+    split; [apply I|]. split; [apply I|]. split; [apply I|]. split; [apply I|].
+    intros t E j Hj. destruct (inv_thr I t) as (_ & _ & _ & P). rewrite E in P.
+    destruct (inv_all_set I P Hj) as (v & Hv & _). congruence.
+  Qed.
+
+  Theorem combine_threads_vals_sent s :
+    cb_reach s -> forall j v, cbs_vals s j = Some v -> In v (qs j).
+  Proof.
+    intros R j v H. destruct (reach_inv R) as [I T].
+    destruct (inv_thr I j) as (_ & _ & P & _). apply P. exact H.
+  Qed.
+
+  (** 2. at most one greeting, and it begins before every other delivery *)
+  Theorem combine_threads_greet_once s :
+    cb_reach s ->
+    count is_begin_greet (cbs_tr s) <= 1 /\ before_greet_ok (rev (cbs_tr s)) = true.
+  Proof.
+    intros R. destruct (reach_inv R) as [I T]. split; [|apply T].
+    rewrite (ti_greet T). destruct (cbs_nstart s =? 0); lia.
+  Qed.
+
+  (** 3. every emitted tuple is complete and made of values that were sent *)
+  Theorem combine_threads_tuples s :
+    cb_reach s ->
+    forall t x, In (t, TBegin (DD x)) (cbs_tr s) ->
+    exists l, x = VT l /\ length l = n /\ tuple_ok qs 0 l = true.
+  Proof.
+    intros R t x Hin. destruct (reach_inv R) as [I T].
+    exact (proj1 (Forall_forall _ _) (ti_tuples T) _ Hin).
+  Qed.
+
+  (** 4. at most one terminal message, begun while no data delivery is in progress *)
+  Theorem combine_threads_one_terminal s :
+    cb_reach s ->
+    count is_begin_term (cbs_tr s) <= 1 /\
+    (cbs_nend s = 0 -> forall t, t < n ->
+       cb_pcv (cbs_th s t) = CbInTerm \/ cb_pcv (cbs_th s t) = CbFinished) /\
+    scan_term (fun _ => false) false (rev (cbs_tr s)) = [] /\
+    ~ In TvTermDuringData (scan_term (fun _ => false) false (rev (cbs_tr s))) /\
+    ~ In TvAfterTerminal (scan_term (fun _ => false) false (rev (cbs_tr s))).
+  Proof.
+    intros R. destruct (reach_inv R) as [I T].
+    pose proof (ti_scan T) as Sc. unfold O0 in Sc.
+    split; [rewrite (ti_term T); destruct (cbs_nend s =? 0); lia|].
+    split; [intros H t _; apply (all_ended I H)|].
+    split; [exact Sc|]. rewrite Sc. split; intros [].
+  Qed.
+
+  (** 5. once every member thread has finished, the whole C18 monitor is silent *)
+  Theorem combine_threads_final s :
+    cb_reach s -> (forall t, t < n -> cb_finished s t = true) ->
+    combine_check n qs fins (rev (cbs_tr s)) = [].
+  Proof.
+    intros R F. destruct (reach_inv R) as [I T].
+    assert (S0 : cbs_nstart s = 0).
+    { rewrite (inv_nstart I). apply cnt_zero_intro. intros x Hx. specialize (F x Hx).
+      unfold cb_finished in F. unfold atstartb.
+      destruct (cb_pcv (cbs_th s x)); try discriminate; reflexivity. }
+    assert (P1 : count is_begin_greet (rev (cbs_tr s)) = 1)
+      by (rewrite count_rev, (ti_greet T), S0; reflexivity).
+    assert (P3 : (count is_begin_term (rev (cbs_tr s)) <=? 1) = true)
+      by (apply Nat.leb_le; rewrite count_rev, (ti_term T); destruct (cbs_nend s =? 0); lia).
+    assert (P4 : existsb is_panic (rev (cbs_tr s)) = false) by (rewrite existsb_rev; apply T).
+    pose proof (ti_scan T) as P5. unfold O0 in P5.
+    assert (P7 : forallb (fun t => match fins t with FinNone => false | _ => true end) (seq 0 n) = true ->
+                 count is_begin_dt (rev (cbs_tr s)) = 1).
+    { intros A. rewrite count_rev, (ti_dt T).
+      assert (E0 : cbs_nend s = 0); [|rewrite E0; reflexivity].
+      rewrite (inv_nend I). apply cnt_zero_intro. intros x Hx. specialize (F x Hx).
+      unfold cb_finished in F. unfold notendedb.
+      destruct (cb_pcv (cbs_th s x)); try discriminate.
+      destruct (inv_thr I x) as (Hf & _). rewrite Hf.
+      pose proof (proj1 (forallb_forall _ _) A x) as B. cbv beta in B.
+      specialize (B ltac:(apply in_seq; lia)). destruct (fins x); [reflexivity|reflexivity|discriminate]. }
+    unfold combine_check.
+    rewrite P1, (ti_bgo T), P3, P4, P5. cbn [Nat.eqb flagt negb app].
+    rewrite flat_map_nil.
+    2:{ intros e He. apply in_rev in He.
+        pose proof (proj1 (Forall_forall _ _) (ti_tuples T) e He) as G. unfold tuple_good in G.
+        destruct (snd e) as [m| | |]; try reflexivity. destruct m as [|x|e'|]; try reflexivity.
+        destruct G as (l & -> & Hl & Hok). rewrite Hl, Hok, Nat.eqb_refl. reflexivity. }
+    cbn [app].
+    destruct (forallb _ (seq 0 n)) eqn:A; [|reflexivity].
+    match goal with |- context [@count ?A ?f (rev (cbs_tr s))] =>
+      change (@count A f (rev (cbs_tr s))) with (@count tevent is_begin_dt (rev (cbs_tr s))) end.
+    rewrite (P7 eq_refl). reflexivity.
+  Qed.
+
 End Combine.
+
+(** ** Connecting the scheduler of Threads.v to reachability *)
+
+Lemma run_sched_reach n qs fins sch : forall s,
+  cb_reach n qs fins s -> cb_reach n qs fins (run_sched (cb_step true n) cb_finished sch s).
+Proof.
+  induction sch as [|t sch IH]; intros s R; simpl; [exact R|].
+  apply IH. destruct (cb_finished s t); [exact R|constructor; exact R].
+Qed.
+
+Lemma drain_threads_reach n qs fins nth fuel : forall s,
+  cb_reach n qs fins s -> cb_reach n qs fins (drain_threads (cb_step true n) cb_finished nth fuel s).
+Proof.
+  induction fuel as [|f IH]; intros s R; simpl; [exact R|].
+  destruct (first_unfinished cb_finished nth s); [|exact R]. apply IH. constructor. exact R.
+Qed.
+
+Lemma run_full_reach n qs fins nth sch fuel :
+  cb_reach n qs fins (run_full (cb_step true n) cb_finished nth sch fuel (cb_init n qs fins)).
+Proof. unfold run_full. apply drain_threads_reach, run_sched_reach. constructor. Qed.
+
+(** hence: whatever the schedule, a complete run of the repaired code passes the C18 monitor *)
+Corollary combine_threads_run_full_check n qs fins nth sch fuel :
+  1 <= n ->
+  let s := run_full (cb_step true n) cb_finished nth sch fuel (cb_init n qs fins) in
+  cbs_panicked s = false /\
+  ((forall t, t < n -> cb_finished s t = true) -> combine_check n qs fins (rev (cbs_tr s)) = []).
+Proof.
+  intros Hn s. pose proof (run_full_reach n qs fins nth sch fuel) as R. fold s in R. split.
+  - apply (combine_threads_no_panic Hn R).
+  - apply (combine_threads_final Hn R).
+Qed.
+
+(** ** The unrepaired code is refuted by a concrete schedule *)
+
+Definition refute_qs : nat -> list val := fun t => match t with 0 => [VN 1] | 1 => [VN 2] | _ => [] end.
+Definition refute_fins : nat -> final := fun _ => FinTerm.
+Definition refute_sch : list nat := [0;0;0;0;1;1;1;1;1;1;0;0;1;0;0].
+Definition refute_final : cb_state :=
+  run_full (cb_step false 2) cb_finished 2 refute_sch 100 (cb_init 2 refute_qs refute_fins).
+
+Lemma combine_threads_unfixed_refuted :
+  cbs_panicked refute_final = true /\
+  In (1, TPanic) (cbs_tr refute_final) /\
+  In TvPanic (combine_check 2 refute_qs refute_fins (rev (cbs_tr refute_final))).
+Proof. vm_compute. split; [reflexivity|]. split; tauto. Qed.
+
+(** the same schedule on the repaired code is fine (sanity check of the model) *)
+Lemma combine_threads_fixed_same_schedule :
+  let s := run_full (cb_step true 2) cb_finished 2 refute_sch 100 (cb_init 2 refute_qs refute_fins) in
+  cbs_panicked s = false /\ combine_check 2 refute_qs refute_fins (rev (cbs_tr s)) = [] /\
+  forallb (cb_finished s) (seq 0 2) = true.
+Proof. vm_compute. repeat split. Qed.
+
+Check combine_threads_no_panic.
+Check combine_threads_greet_once.
+Check combine_threads_tuples.
+Check combine_threads_one_terminal.
+Check combine_threads_final.
+Print Assumptions combine_threads_no_panic.
+Print Assumptions combine_threads_counts.
+Print Assumptions combine_threads_vals_sent.
+Print Assumptions combine_threads_greet_once.
+Print Assumptions combine_threads_tuples.
+Print Assumptions combine_threads_one_terminal.
+Print Assumptions combine_threads_final.
+Print Assumptions run_full_reach.
+Print Assumptions combine_threads_run_full_check.
+Print Assumptions combine_threads_unfixed_refuted.
+Print Assumptions combine_threads_fixed_same_schedule.
